@@ -162,6 +162,20 @@ class Contract:
         import copy
         if getattr(self, 'denom', None):
             return denom_variants(self, tier)
+        if getattr(self, 'ctor_consts', None):
+            out = [self]
+            for v, req, ens in self.ctor_consts:
+                if tier == 'quick' and v not in self.ctor_quick:
+                    continue
+                c = copy.copy(self)
+                c.ctor_consts = None
+                c.requires = [req]
+                c.ensures = ens
+                c.part = 'd=%d: stored parameters (concrete evaluation)' % v
+                c.partial = 'constructor parameters compared with the Granlund-Montgomery definition for the listed constant divisors only'
+                c.defines = []
+                out.append(c)
+            return out
         if getattr(self, 'div_consts', None) and tier == 'thorough' and getattr(self, 'div_full_lanes', False):
             # 8-bit SIMD lanes, thorough tier: FULL DOMAIN, one lane's post-condition per solver call -- every dividend and
             # every divisor of that lane, the other lanes' operands unconstrained (80-110 s per lane): a proof, not a lattice
@@ -1501,6 +1515,37 @@ def f_denominator(c):
                 st = T(ELEM[el][2], S)
                 ens = [('value() reports the divisor', '%s == %s' % (st.lane('(%s).m.d' % RV, 0), t.lane(c.a(0), 0)))]
             k = Contract('denom_ctor', ['C14', 'C15'] if not vec else ['C15'], requires=req, ensures=ens, cxx='%s({0})' % ('avel::Denominator<%s>' % t.cxx()), flags=['div'])
+            if not vec and fn['owner'] in ('Denom_u32', 'Denom_u64', 'Denom_i32', 'Denom_i64', 'Denom_u16', 'Denom_i16'):
+                # stored parameters for constant divisors: constructor and reference both fold to constants, so whatever
+                # arithmetic the constructor uses (128-by-64-bit long division in the portable 64-bit branches, divq, ...)
+                # is executed on each of them.  Lattice + a few arbitrary large divisors (not of the form 2^k, 2^k +- small)
+                b = t.bits
+                d0 = c.a(0)
+                M = (1 << b) - 1
+                arb = {16: [1000, 12345, 40503], 32: [1000000007, 123456789, 0xDEADBEEF, 3000000019 & M],
+                       64: [0x123456789ABCDEF, 1000000000000000009, 0xFEDCBA9876543211, 6700417 * 4294967291, (3 << 40) + 12345, 7777777777777, 99194853094755497]}[b]
+                vals = sorted(set(denom_lattice(t) + [v & M for v in arb]))
+                cc = []
+                for v in vals:
+                    if v == 0:
+                        continue
+                    if t.signed:
+                        sv = v - (1 << b) if v >> (b - 1) else v
+                        av = -sv if sv < 0 else sv
+                        if av == (1 << (b - 1)) and b == 32:
+                            pass
+                        ens = [('mp == floor(2^(N+l-1)/|d|) + 1 - 2^N', '(uint64_t)(uint%d_t)(%s).mp == spec_gm_magic_real_s(%dull, %d)' % (b, RV, av, b)),
+                               ('sh == l - 1', '(uint64_t)(uint%d_t)(%s).sh == (uint64_t)((spec_ceil_log2(%dull, %d) < 1 ? 1 : spec_ceil_log2(%dull, %d)) - 1)' % (b, RV, av, b, av, b)),
+                               ('d_sign', '(uint64_t)(uint%d_t)(%s).d_sign == %dull' % (b, RV, M if sv < 0 else 0)),
+                               ('d', '(uint64_t)(uint%d_t)(%s).d == %dull' % (b, RV, v))]
+                    else:
+                        ens = [('m == floor(2^N (2^l - d) / d) + 1', '(uint64_t)(uint%d_t)(%s).m == spec_gm_magic_real_u(%dull, %d)' % (b, RV, v, b)),
+                               ('d', '(uint64_t)(uint%d_t)(%s).d == %dull' % (b, RV, v))]
+                        if v != 1:
+                            ens.append(('sh2 == l - 1', '(uint64_t)(uint%d_t)(%s).sh2 == (uint64_t)(spec_ceil_log2(%dull, %d) - 1)' % (b, RV, v, b)))
+                    cc.append((v, '(uint64_t)(uint%d_t)%s == %dull' % (b, d0, v), ens))
+                k.ctor_consts = cc
+                k.ctor_quick = set(vals[:3] + [v & M for v in arb[:2]] + [M, 1 << (b - 1)])
             if fn['owner'] == 'Denom_i32':
                 # code-level contract (modulo-lemma L4): the constructor stores the signed Granlund-Montgomery parameters of d
                 d0 = c.a(0)
